@@ -226,6 +226,19 @@ func plansFor(d corpus.Doc, lim c17Limits, r *prng.R) []simio.ReadPlan {
 			ps = append(ps, p)
 		}
 	}
+	// a zero-length read before every delivery, all the way through (never two in a row): cumulative counters
+	if n <= 60000 {
+		for _, m := range []int{188, 61, 1000} {
+			if n/m > 20000 {
+				continue
+			}
+			var chunks []int
+			for sum := 0; sum < n; sum += m {
+				chunks = append(chunks, 0, m)
+			}
+			ps = append(ps, simio.ReadPlan{Name: "zero-alternating", Chunks: chunks, Rest: m})
+		}
+	}
 	// zero-length reads at fixed places
 	ps = append(ps,
 		simio.ReadPlan{Name: "zero-first", Chunks: []int{0, 0, 0}},
@@ -259,6 +272,26 @@ func c17Docs(cfg Config, lim c17Limits) ([]corpus.Doc, error) {
 		}
 		docs = append(docs, corpus.Mutate(mr, d, i))
 	}
+	// concatenated documents and documents followed by trailing junk (usually invalid): whatever the reader makes
+	// of them must not depend on where a read boundary falls relative to the end of the first document
+	cr := root.Derive("concat", 0)
+	for _, f := range corpus.Formats {
+		var same []corpus.Doc
+		for _, d := range gen {
+			if d.Format == f && len(d.Data) < 5000 {
+				same = append(same, d)
+			}
+		}
+		for i := 0; i+1 < len(same) && i < 4; i += 2 {
+			a, b := same[i], same[i+1]
+			docs = append(docs,
+				corpus.Doc{Name: a.Name + "+" + b.Name, Format: f, Data: append(append([]byte(nil), a.Data...), b.Data...), Cues: -1, Gen: true},
+				corpus.Doc{Name: a.Name + "+ws+" + b.Name, Format: f, Data: append(append(append([]byte(nil), a.Data...), " \n\n\t"...), b.Data...), Cues: -1, Gen: true},
+				corpus.Doc{Name: a.Name + "+junk", Format: f, Data: append(append([]byte(nil), a.Data...), []byte(cr.Pick("\n\ntrailing junk\n", "x", "\x00\x00\x00", " <tt></tt>", "\r\n\r\n9\r\n"))...), Cues: -1, Gen: true})
+		}
+	}
+	// a transport stream long enough for cumulative effects (hundreds of packets)
+	docs = append(docs, corpus.Doc{Name: "ts-long", Format: "ts", Data: corpus.FixedTS(1, "long#stream", 30), Cues: -1, Gen: true})
 	// documents with one line longer than the line scanner can buffer: how such a document is treated must not
 	// depend on the delivery or on the reader type either
 	for _, f := range []string{"srt", "vtt", "ssa"} {
